@@ -19,6 +19,14 @@ func (fx *FnCtx) intrinsic(st *State, call *ast.CallExpr) ([]Val, bool) {
 	errT := types.Universe.Lookup("error").Type()
 	if o, ok := fx.pkg.Info.Uses[sel.Sel].(*types.Func); ok && o.Pkg() != nil && o.Pkg().Path() == "fmt" {
 		switch o.Name() {
+		case "Fprintf", "Fprintln", "Fprint", "Println", "Print":
+			// output only: arguments are evaluated, nothing in the modelled state changes
+			for _, a := range call.Args {
+				if !call.Ellipsis.IsValid() {
+					fx.eval(st, a)
+				}
+			}
+			return []Val{{fx.sc.Fresh("printed", "Int"), "Int", tInt}, {"nilAny", "Any", errT}}, true
 		case "Sprintf", "Errorf", "Printf":
 			if len(call.Args) == 0 || call.Ellipsis.IsValid() {
 				return nil, false
@@ -55,6 +63,7 @@ func (fx *FnCtx) intrinsic(st *State, call *ast.CallExpr) ([]Val, bool) {
 		st.assume(fx.sliceWF(nv))
 		st.assume(fmt.Sprintf("(= (len_%s %s) (len_%s %s))", old.S, nw, old.S, old.T))
 		st.assume(fmt.Sprintf("(= (off_%s %s) (off_%s %s))", old.S, nw, old.S, old.T))
+		st.assume(fmt.Sprintf("(= (bid_%s %s) (bid_%s %s))", old.S, nw, old.S, old.T))
 		st.assume(fmt.Sprintf("(forall ((i Int) (j Int)) (! (=> (and (<= 0 i) (< i j) (< j (len_%s %s))) (sle (%s %s i) (%s %s j))) :pattern ((%s %s i) (%s %s j))))", old.S, nw, el, nw, el, nw, el, nw, el, nw))
 		st.assume(fmt.Sprintf("(forall ((i Int)) (! (=> (and (<= 0 i) (< i (len_%s %s))) (exists ((j Int)) (and (<= 0 j) (< j (len_%s %s)) (= (%s %s i) (%s %s j))))) :pattern ((%s %s i))))", old.S, nw, old.S, old.T, el, nw, el, old.T, el, nw))
 		st.assume(fmt.Sprintf("(forall ((j Int)) (! (=> (and (<= 0 j) (< j (len_%s %s))) (exists ((i Int)) (and (<= 0 i) (< i (len_%s %s)) (= (%s %s i) (%s %s j))))) :pattern ((%s %s j))))", old.S, old.T, old.S, nw, el, nw, el, old.T, el, old.T))
@@ -66,7 +75,7 @@ func (fx *FnCtx) intrinsic(st *State, call *ast.CallExpr) ([]Val, bool) {
 		if p, ok := derefType(rt); ok {
 			rt = p
 		}
-		if n, ok := types.Unalias(rt).(*types.Named); ok && n.Obj().Pkg() != nil && n.Obj().Pkg().Path() == "bytes" && n.Obj().Name() == "Buffer" {
+		if n, ok := types.Unalias(rt).(*types.Named); ok && n.Obj().Pkg() != nil && n.Obj().Pkg().Path() == "bytes" && n.Obj().Name() == "Buffer" && !isPtrExpr(fx, sel.X) {
 			recvExpr := sel.X
 			if u, ok := recvExpr.(*ast.UnaryExpr); ok && u.Op == token.AND {
 				recvExpr = u.X
@@ -115,6 +124,8 @@ func (fx *FnCtx) isIntrinsic(call *ast.CallExpr) bool {
 	}
 	if o, ok := fx.pkg.Info.Uses[sel.Sel].(*types.Func); ok && o.Pkg() != nil && o.Pkg().Path() == "fmt" {
 		switch o.Name() {
+		case "Fprintf", "Fprintln", "Fprint", "Println", "Print":
+			return true
 		case "Sprintf", "Errorf", "Printf":
 			return len(call.Args) > 0 && !call.Ellipsis.IsValid()
 		}
@@ -127,9 +138,19 @@ func (fx *FnCtx) isIntrinsic(call *ast.CallExpr) bool {
 		if p, ok := derefType(rt); ok {
 			rt = p
 		}
-		if n, ok := types.Unalias(rt).(*types.Named); ok && n.Obj().Pkg() != nil && n.Obj().Pkg().Path() == "bytes" && n.Obj().Name() == "Buffer" {
+		if n, ok := types.Unalias(rt).(*types.Named); ok && n.Obj().Pkg() != nil && n.Obj().Pkg().Path() == "bytes" && n.Obj().Name() == "Buffer" && !isPtrExpr(fx, sel.X) {
 			return true
 		}
 	}
 	return false
+}
+
+// isPtrExpr: the expression has pointer type (a *bytes.Buffer obtained elsewhere is opaque; only
+// local Buffer values are modelled as string accumulators)
+func isPtrExpr(fx *FnCtx, e ast.Expr) bool {
+	if u, ok := e.(*ast.UnaryExpr); ok && u.Op == token.AND {
+		return false
+	}
+	_, ok := derefType(fx.typeOf(e))
+	return ok
 }
